@@ -470,6 +470,7 @@ class MultiStream(Stream):
         if phases != self.phases:
             self._imol = self._imol.to_material_indexer(phases)
             self.reset_cache()
+            self._relink_phase_streams()
     
     ### Flow properties ###
             
